@@ -69,6 +69,17 @@ class CondCtx(object):
         if isinstance(test, ast.Compare) and len(test.ops) == 1:
             op = test.ops[0]
             left, right = test.left, test.comparators[0]
+            # len(x) == 0, len(x) > 0, ... : the truth value of the sized object x
+            for (a, b, o) in ((left, right, type(op)), (right, left, {ast.Lt: ast.Gt, ast.LtE: ast.GtE, ast.Gt: ast.Lt, ast.GtE: ast.LtE}.get(type(op), type(op)))):
+                if isinstance(a, ast.Call) and isinstance(a.func, ast.Name) and a.func.id == "len" and len(a.args) == 1 and not a.keywords \
+                        and isinstance(b, ast.Constant) and type(b.value) is int:
+                    empty = None
+                    if (o is ast.Eq and b.value == 0) or (o is ast.Lt and b.value == 1) or (o is ast.LtE and b.value == 0):
+                        empty = True
+                    elif (o is ast.NotEq and b.value == 0) or (o is ast.Gt and b.value == 0) or (o is ast.GtE and b.value == 1):
+                        empty = False
+                    if empty is not None:
+                        return [Lit("truth", self.subject(a.args[0]), None, (not empty) == polarity, norm(test))]
             if isinstance(op, (ast.In, ast.NotIn)) and isinstance(right, (ast.Tuple, ast.List, ast.Set)):
                 vals = [self._val(e) for e in right.elts]
                 if all(v is not None or _is_none(e) for v, e in zip(vals, right.elts)):
